@@ -277,7 +277,7 @@ def stack_probe(ctx, genc, target, sess, disagree, head_guarded, limit=40):
     plain = genc.ask([f"@{e},asserts de {gt.tstr} {'55' if size else '-'}" for fn, gt, tag, size in calls])
     out = {}
     for cc in ("gcc", "clang"):
-        for opt in ("-O2", "-O0"):
+        for opt in (("-O2",) if ctx.tier == "quick" else ("-O2", "-O1", "-O0")):
             exe = d / f"probe_{cc}{opt}"
             cmd = [cc, "-std=c11", opt, "-DNUNAVUT_ASSERT(x)=assert(x)", "-Wno-unused-function", "-I", str(target.outdir / "gen"),
                    str(d / "probe.c"), "-o", str(exe), "-lm"]
